@@ -147,6 +147,8 @@ def _run_job(job):
         r = dict(errors=["job %s crashed: %r\n%s" % (job.name, ex, traceback.format_exc()[-1500:])],
                  crashed=True)
     r["job"] = job.name
+    if r.get("errors"):
+        r["errors"] = [e if str(e).startswith("job ") else "[%s] %s" % (job.name, e) for e in r["errors"]]
     r["wall_s"] = round(time.time() - t, 2)
     return r
 
